@@ -258,6 +258,17 @@ func (w *cluster3) buildReq(entry int, ep string, variant int) *httpReq {
 		rq.HostHdr = "10.0.0.1:8000"
 	}
 	rq.Endpoint = endpointOf(rq.HostHdr, rq.Header.Get("x-piko-endpoint"))
+	// what a client may legally put in a request must not defeat the one-hop rule
+	switch (variant / 11) % 9 {
+	case 1:
+		rq.Header.Set("x-piko-forward", "false")
+	case 2:
+		rq.Header.Set("x-piko-forward", "0")
+	case 3:
+		rq.Header.Set("Connection", "x-piko-forward")
+	case 4:
+		rq.Header.Set("Connection", "close, X-Piko-Forward")
+	}
 	return rq
 }
 
